@@ -208,7 +208,11 @@ func genCase(t *rapid.T) Case {
 		case 4, 5, 6:
 			counter += uint64(rapid.IntRange(1, 2000000).Draw(t, "inc"))
 		case 7:
-			counter += 1 << 63
+			if rapid.Bool().Draw(t, "big") {
+				counter += uint64(rapid.SampledFrom([]uint64{1 << 32, 1<<32 + 5, 1 << 40, 1 << 52, 1<<62 + 3}).Draw(t, "bigstep"))
+			} else {
+				counter += 1 << 63
+			}
 		case 8:
 			counter--
 		case 9:
